@@ -76,7 +76,7 @@ def make_rig(cfg, transport='udp', fill=None, T=1, R=0, ka=False, ctx=None, keep
     dev.mbap_length = cfg.get('mbap_length', 'correct')
     dev.refuse_mode = cfg.get('refuse_mode', 'touch')
     if fam == 'ET':
-        et_device_info(dev, serial=serial_for(cfg['tag']), rated=cfg['power'])
+        et_device_info(dev, serial=serial_for(cfg['tag']), rated=cfg['power'], **cfg.get('versions', {}))
         dev.rf.set(35184, cfg['battery_mode'])
         for name in cfg['refused']:
             dev.refused += ET_OPTIONAL[name]
@@ -85,6 +85,20 @@ def make_rig(cfg, transport='udp', fill=None, T=1, R=0, ka=False, ctx=None, keep
         for name in cfg['refused']:
             dev.refused += DT_OPTIONAL[name]
     return Rig(fam, dev, transport, T, R, ka, ctx, keep_world=keep_world)
+
+
+VERSION_VALUES = tuple(range(0, 41)) + (50, 99, 100, 255, 256, 1000, 32767, 65535)
+
+
+def firmware_configs():
+    """The three firmware version words of the ET device info (DSP1, DSP2, ARM) swept one at a time - the pinned library
+    branches on none of them for the runtime poll, so every value must behave like every other."""
+    out = []
+    for tag, p in (('ETU', 3000), ('ETU', 15000), ('ETT', 10000), ('EHU', 5000)):
+        for word in ('dsp1', 'dsp2', 'arm_version'):
+            for v in VERSION_VALUES:
+                out.append(dict(family='ET', tag=tag, power=p, refused=(), battery_mode=2, versions={word: v}))
+    return out
 
 
 def neighbour_for(cfg):
